@@ -18,6 +18,16 @@ CLAIMED = {
             "deterministic simulation with fault injection (seeded schedule/fault search, replayable choice vector, shrinking)"),
 }
 
+CLAIMED["C09"] = ("verif-tun", "DESIGN.md §3 C09",
+    "Seeded search over histories of {register, boundary-directed clock advance (exactly on / 1 ns either side of every stored expiry), purge, connect, client data, "
+    "SCION-side data, timer tick} interleaved with a lossy/duplicating/reordering/replaying/mis-delivering datagram network, against the real SnapTunServer and "
+    "IdentityRegistry with real WireGuard clients. Oracles: reference registry (one identity per key, one key per identity, expiry strictly after now) agrees with the real "
+    "one on every identity around every expiry; every forwarded inbound payload and every client-decryptable outbound payload belongs to an identity authorised at that "
+    "instant, is attributed to the authenticating identity's session, and is never replayed. Evidence, not proof.",
+    "Trusted: gotatun's cryptography and its real-clock timers (never fire in millisecond runs); the authorisation seam substitutes the virtual clock for the Instant the server reads itself; "
+    "the gateway's socket loop is not simulated.",
+    "deterministic simulation with fault injection (seeded history/fault search against a reference registry model, replayable choice vector, shrinking)")
+
 NOT_APPLICABLE = {
     "C02": "pure function of a byte string (no stream, timer, shared state or fault in it): not a simulation target; needs exhaustive enumeration / a memory checker",
     "C03": "pure function of a packet model / byte string: needs an independent reference decoder and boundary-directed input generation, not a scheduler",
@@ -37,7 +47,6 @@ PENDING = {
     "C05": "engine mgr-sim not built yet in this round (planned: DESIGN.md §3 C05); not claimed until its check exists",
     "C06": "engine mgr-sim not built yet in this round (planned: DESIGN.md §3 C06); not claimed until its check exists",
     "C07": "engine mgr-sim not built yet in this round (planned: DESIGN.md §3 C07); not claimed until its check exists",
-    "C09": "engine tun-sim not built yet in this round (planned: DESIGN.md §3 C09); not claimed until its check exists",
     "C11": "engine net-sim not built yet in this round (planned: DESIGN.md §3 C11); not claimed until its check exists",
     "C13": "engine net-sim not built yet in this round (planned: DESIGN.md §3 C13); not claimed until its check exists",
     "C14": "engine net-sim not built yet in this round (planned: DESIGN.md §3 C14); not claimed until its check exists",
